@@ -67,6 +67,7 @@ Proof.
   - destruct r0; [destruct (c_tpm c) as [[|]|]| |]; inversion H; subst; cbn;
       try reflexivity; now rewrite app_nil_r.
   - destruct m0; inversion H; subst; cbn; try reflexivity; now rewrite app_nil_r.
+  - destruct (eval_ffun fn c); inversion H; subst; now rewrite app_nil_r.
 Qed.
 
 Lemma spec_actions_measured : forall acts idx c iss m c' sw,
@@ -76,7 +77,7 @@ Proof.
   - inversion H; subst. now rewrite app_nil_r.
   - destruct (core_apply a c) as [[c1 m1] r] eqn:Ea.
     apply core_apply_measured in Ea.
-    destruct (sets_flow a).
+    destruct (sets_flow a c).
     + inversion H; subst. exact Ea.
     + destruct (spec_actions rest (idx + 1) c1) as [[[iss2 m2] c2] sw2] eqn:Er.
       inversion H; subst. apply IH in Er. rewrite Er, Ea, app_assoc. reflexivity.
@@ -97,7 +98,7 @@ Proof.
   - inversion H; subst. exists st. cbn. rewrite app_nil_r. auto.
   - cbn [loop_actions]. unfold apply_action. cbn [ms_core ms_flow ms_step ms_act].
     destruct (core_apply a (ms_core st)) as [[c1 m1] r] eqn:Ea.
-    destruct (sets_flow a) as [g|] eqn:Es.
+    destruct (sets_flow a (ms_core st)) as [g|] eqn:Es.
     + inversion H; subst. cbn [set_flow ms_step]. rewrite Z.eqb_refl.
       eexists. split; [reflexivity|]. cbn. auto.
     + cbn [ms_step].
@@ -238,28 +239,45 @@ Qed.
 
 (** * Targets of flow switches *)
 
+Lemma eval_ffun_target : forall fn c g, eval_ffun fn c = Ok g -> In g (ffun_targets fn).
+Proof.
+  induction fn as [g0|cd t IHt e IHe|]; intros c g H; cbn in *.
+  - inversion H; subst. left; reflexivity.
+  - apply in_or_app. destruct (eval_cond cd c) as [[|]| | |]; try discriminate; eauto.
+  - discriminate.
+Qed.
+
+(** whatever the state, an action only switches to one of its static targets *)
+Lemma sets_flow_target a c g : sets_flow a c = Some g -> In g (action_targets a).
+Proof.
+  destruct a; cbn; try discriminate.
+  - intros H; inversion H; subst. left; reflexivity.
+  - destruct g0; [|discriminate]. intros H; inversion H; subst. left; reflexivity.
+  - destruct (eval_ffun fn c) eqn:E; try discriminate. intros H; inversion H; subst.
+    eapply eval_ffun_target; eauto.
+Qed.
+
 Lemma spec_actions_sw : forall acts idx c iss m c' g,
   spec_actions acts idx c = (iss, m, c', Some g) ->
-  exists a, In a acts /\ sets_flow a = Some g.
+  exists a, In a acts /\ In g (action_targets a).
 Proof.
   induction acts as [|a rest IH]; intros idx c iss m c' g H; cbn in H; [discriminate|].
   destruct (core_apply a c) as [[c1 m1] r].
-  destruct (sets_flow a) as [g'|] eqn:Es.
-  - inversion H; subst. exists a. split; [left; reflexivity | exact Es].
+  destruct (sets_flow a c) as [g'|] eqn:Es.
+  - inversion H; subst. exists a. split; [left; reflexivity | eapply sets_flow_target; eauto].
   - destruct (spec_actions rest (idx + 1) c1) as [[[iss2 m2] c2] sw2] eqn:Er.
     inversion H; subst. destruct (IH _ _ _ _ _ _ Er) as (a' & Hin & Hs).
     exists a'. split; [right; exact Hin | exact Hs].
 Qed.
 
 Lemma action_targets_in acts a g :
-  In a acts -> sets_flow a = Some g -> In g (flat_map action_targets acts).
+  In a acts -> In g (action_targets a) -> In g (flat_map action_targets acts).
 Proof.
-  intros Hin Hs. apply in_flat_map. exists a. split; [exact Hin|].
-  unfold action_targets. rewrite Hs. left; reflexivity.
+  intros Hin Hs. apply in_flat_map. exists a. split; [exact Hin|exact Hs].
 Qed.
 
 Lemma actions_of_targets : forall s c acts a g,
-  actions_of s c = Ok acts -> In a acts -> sets_flow a = Some g -> In g (step_targets s).
+  actions_of s c = Ok acts -> In a acts -> In g (action_targets a) -> In g (step_targets s).
 Proof.
   fix IH 1. intros s c acts a g H Hin Hs. destruct s; cbn in H.
   - inversion H; subst. cbn. eapply action_targets_in; eauto.
@@ -276,13 +294,14 @@ Proof.
       * left. eapply IH; eauto.
       * right. eapply IHt; eauto.
     + discriminate.
-  - inversion H; subst. destruct Hin as [<-|[]]. cbn in Hs. inversion Hs; subst. left; reflexivity.
-  - inversion H; subst. destruct Hin as [<-|[]]. discriminate.
-  - inversion H; subst. destruct Hin as [<-|[]]. discriminate.
-  - inversion H; subst. destruct Hin as [<-|Hin]; [discriminate|].
+  - inversion H; subst. destruct Hin as [<-|[]]. exact Hs.
+  - inversion H; subst. destruct Hin as [<-|[]]. destruct Hs.
+  - inversion H; subst. destruct Hin as [<-|[]]. destruct Hs.
+  - inversion H; subst. destruct Hin as [<-|Hin]; [destruct Hs|].
     destruct withLog; [|destruct Hin].
-    destruct (c_tpm c); cbn in Hin; intuition (subst; discriminate).
+    destruct (c_tpm c); cbn in Hin; intuition (subst; destruct Hs).
   - destruct panics; [discriminate|]. inversion H; subst. cbn. eapply action_targets_in; eauto.
+  - inversion H; subst. destruct Hin as [<-|[]]. exact Hs.
 Qed.
 
 Lemma exec_step_sw_target ts c e c' g :
@@ -426,43 +445,76 @@ Qed.
 Definition core_after (a : action) (c : core) : core := fst (fst (core_apply a c)).
 Definition result_of (a : action) (c : core) : outcome unit := snd (core_apply a c).
 
-(** the actions that are applied: all up to and including the first one that
-    sets the flow — whether or not they fail *)
-Fixpoint executed (acts : list action) : list action :=
+(** the actions that are applied when the step starts in [c]: all up to and
+    including the first one that sets the flow — whether or not they fail.
+    Whether an action sets the flow is decided on the state left by its
+    predecessors (a function-based set-flow looks at that state). *)
+Fixpoint executed (acts : list action) (c : core) : list action :=
   match acts with
   | [] => []
-  | a :: rest => match sets_flow a with Some _ => [a] | None => a :: executed rest end
+  | a :: rest =>
+      match sets_flow a c with
+      | Some _ => [a]
+      | None => a :: executed rest (core_after a c)
+      end
   end.
 
 Definition apply_all (l : list action) (c : core) : core :=
   fold_left (fun c a => core_after a c) l c.
 
+(** the flow the action list switches to when run from [c], if any *)
+Fixpoint first_switch (acts : list action) (c : core) : option Z :=
+  match acts with
+  | [] => None
+  | a :: rest =>
+      match sets_flow a c with
+      | Some g => Some g
+      | None => first_switch rest (core_after a c)
+      end
+  end.
+
+Lemma core_after_eq a c c1 m1 r : core_apply a c = (c1, m1, r) -> core_after a c = c1.
+Proof. unfold core_after. intros ->. reflexivity. Qed.
+
+Lemma spec_actions_switch : forall acts idx c,
+  snd (spec_actions acts idx c) = first_switch acts c.
+Proof.
+  induction acts as [|a rest IH]; intros idx c; cbn [spec_actions first_switch]; [reflexivity|].
+  destruct (core_apply a c) as [[c1 m1] r] eqn:Ea.
+  rewrite (core_after_eq _ _ _ _ _ Ea).
+  destruct (sets_flow a c); [reflexivity|].
+  specialize (IH (idx + 1) c1).
+  destruct (spec_actions rest (idx + 1) c1) as [[[iss2 m2] c2] sw2]. exact IH.
+Qed.
+
 Lemma spec_actions_core : forall acts idx c,
-  snd (fst (spec_actions acts idx c)) = apply_all (executed acts) c.
+  snd (fst (spec_actions acts idx c)) = apply_all (executed acts c) c.
 Proof.
   induction acts as [|a rest IH]; intros idx c; cbn [spec_actions executed]; [reflexivity|].
-  unfold apply_all in *.
   destruct (core_apply a c) as [[c1 m1] r] eqn:Ea.
-  destruct (sets_flow a).
-  - cbn. unfold core_after. rewrite Ea. reflexivity.
+  rewrite (core_after_eq _ _ _ _ _ Ea).
+  destruct (sets_flow a c).
+  - unfold apply_all. cbn. rewrite (core_after_eq _ _ _ _ _ Ea). reflexivity.
   - specialize (IH (idx + 1) c1).
     destruct (spec_actions rest (idx + 1) c1) as [[[iss2 m2] c2] sw2].
-    cbn [fst snd fold_left] in *. unfold core_after at 2. rewrite Ea. exact IH.
+    cbn [fst snd] in *. rewrite IH. unfold apply_all. cbn [fold_left].
+    rewrite (core_after_eq _ _ _ _ _ Ea). reflexivity.
 Qed.
 
 Lemma spec_actions_issue_iff : forall acts idx c k,
   In (ICAction k) (fst (fst (fst (spec_actions acts idx c)))) <->
-  exists n a, k = idx + Z.of_nat n /\ nth_error (executed acts) n = Some a /\
-              result_of a (apply_all (firstn n (executed acts)) c) <> Ok tt.
+  exists n a, k = idx + Z.of_nat n /\ nth_error (executed acts c) n = Some a /\
+              result_of a (apply_all (firstn n (executed acts c)) c) <> Ok tt.
 Proof.
   induction acts as [|a rest IH]; intros idx c k; cbn [spec_actions executed].
   - cbn. split; [tauto|]. intros (n & a & _ & H & _). destruct n; discriminate.
   - destruct (core_apply a c) as [[c1 m1] r] eqn:Ea.
+    pose proof (core_after_eq _ _ _ _ _ Ea) as Hc1. rewrite Hc1.
     assert (Hhead : In (ICAction k) (apply_issues idx r) <-> k = idx /\ result_of a c <> Ok tt).
     { unfold result_of. rewrite Ea. cbn [snd]. destruct r as [[]| | |]; cbn; split;
         try tauto; try (intros [H|[]]; inversion H; split; [reflexivity|discriminate]);
         try (intros [-> _]; left; reflexivity). }
-    destruct (sets_flow a) eqn:Es.
+    destruct (sets_flow a c) eqn:Es.
     + cbn [fst]. rewrite Hhead. split.
       * intros [-> Hr]. exists O, a. cbn. rewrite Z.add_0_r. auto.
       * intros (n & a' & Hk & Hn & Hr). destruct n as [|n].
@@ -474,27 +526,78 @@ Proof.
       * intros [[-> Hr]|(n & a' & Hk & Hn & Hr)].
         -- exists O, a. cbn. rewrite Z.add_0_r. auto.
         -- exists (S n), a'. split; [lia|]. split; [exact Hn|].
-           cbn [firstn]. unfold apply_all in *. cbn [fold_left]. unfold core_after at 2. rewrite Ea. exact Hr.
+           cbn [firstn]. unfold apply_all in *. cbn [fold_left]. rewrite Hc1. exact Hr.
       * intros (n & a' & Hk & Hn & Hr). destruct n as [|n].
         -- left. cbn in Hn, Hr. inversion Hn; subst. rewrite Z.add_0_r. auto.
         -- right. exists n, a'. split; [lia|]. split; [exact Hn|].
-           cbn [firstn] in Hr. unfold apply_all in *. cbn [fold_left] in Hr. unfold core_after at 2 in Hr.
-           rewrite Ea in Hr. exact Hr.
+           cbn [firstn] in Hr. unfold apply_all in *. cbn [fold_left] in Hr.
+           rewrite Hc1 in Hr. exact Hr.
 Qed.
 
 (** * A switch makes the rest of the step irrelevant *)
 
+Lemma first_switch_none_cons x pre c :
+  first_switch (x :: pre) c = None ->
+  sets_flow x c = None /\ first_switch pre (core_after x c) = None.
+Proof. cbn. destruct (sets_flow x c); [discriminate|auto]. Qed.
+
 Lemma spec_actions_skip : forall pre a post g idx c,
-  Forall (fun x => sets_flow x = None) pre -> sets_flow a = Some g ->
+  first_switch pre c = None -> sets_flow a (apply_all pre c) = Some g ->
   spec_actions (pre ++ a :: post) idx c = spec_actions (pre ++ [a]) idx c /\
   snd (spec_actions (pre ++ a :: post) idx c) = Some g.
 Proof.
   induction pre as [|x pre IH]; intros a post g idx c Hpre Ha; cbn [app spec_actions].
-  - destruct (core_apply a c) as [[c1 m1] r]. rewrite Ha. auto.
-  - inversion Hpre; subst. destruct (core_apply x c) as [[c1 m1] r]. rewrite H1.
+  - cbn in Ha. destruct (core_apply a c) as [[c1 m1] r]. rewrite Ha. auto.
+  - apply first_switch_none_cons in Hpre. destruct Hpre as [H1 H2].
+    unfold apply_all in Ha. cbn [fold_left] in Ha. fold (apply_all pre (core_after x c)) in Ha.
+    unfold core_after in H2, Ha.
+    destruct (core_apply x c) as [[c1 m1] r]. cbn [fst] in H2, Ha. rewrite H1.
     destruct (IH a post g (idx + 1) c1 H2 Ha) as [E1 E2]. rewrite E1.
     destruct (spec_actions (pre ++ [a]) (idx + 1) c1) as [[[iss2 m2] c2] sw2] eqn:E.
     split; [reflexivity|]. rewrite E1 in E2. exact E2.
+Qed.
+
+(** * A function-based set-flow is resolved when it is applied *)
+
+Lemma first_switch_app : forall pre rest c,
+  first_switch pre c = None ->
+  first_switch (pre ++ rest) c = first_switch rest (apply_all pre c).
+Proof.
+  induction pre as [|x pre IH]; intros rest c H; [reflexivity|].
+  apply first_switch_none_cons in H. destruct H as [H1 H2].
+  cbn [app first_switch]. rewrite H1. rewrite IH by exact H2. reflexivity.
+Qed.
+
+(** the step built by [SetFlowFromFunc] hands the function on without calling
+    it — in particular a function that would panic does not make [Actions]
+    panic *)
+Lemma set_flow_func_step_lazy id fn c :
+  actions_of (SSetFlowFunc id fn) c = Ok [ASetFlowFunc id fn].
+Proof. reflexivity. Qed.
+
+(** the flow is chosen on the state left by ALL actions applied before it in
+    the same step; a function that panics switches nothing (the action fails,
+    the state is untouched) and the remaining actions decide *)
+Lemma set_flow_func_late pre id fn post idx c :
+  first_switch pre c = None ->
+  snd (spec_actions (pre ++ ASetFlowFunc id fn :: post) idx c) =
+    match eval_ffun fn (apply_all pre c) with
+    | Ok g => Some g
+    | _ => first_switch post (apply_all pre c)
+    end.
+Proof.
+  intros H. rewrite spec_actions_switch, first_switch_app by exact H.
+  cbn [first_switch sets_flow]. unfold core_after. cbn [core_apply].
+  destruct (eval_ffun fn (apply_all pre c)); reflexivity.
+Qed.
+
+Lemma set_flow_func_issue id fn c :
+  result_of (ASetFlowFunc id fn) c <> Ok tt <-> (forall g, eval_ffun fn c <> Ok g).
+Proof.
+  unfold result_of. cbn [core_apply]. destruct (eval_ffun fn c) as [g| | |]; cbn [snd]; split; intros H;
+    try discriminate; try (intros g' ?; discriminate).
+  - exfalso. apply H. reflexivity.
+  - exfalso. eapply H. reflexivity.
 Qed.
 
 (** * Statements used by Props/C09.v *)
@@ -556,10 +659,10 @@ Lemma step_panic_contained sid body c :
 Proof. intros H. unfold exec_step. rewrite H. destruct (actor_part c). reflexivity. Qed.
 
 Lemma action_failure_contained acts c :
-  snd (fst (spec_actions acts 0 c)) = apply_all (executed acts) c /\
+  snd (fst (spec_actions acts 0 c)) = apply_all (executed acts c) c /\
   forall n, In (ICAction (Z.of_nat n)) (fst (fst (fst (spec_actions acts 0 c)))) <->
-            exists a, nth_error (executed acts) n = Some a /\
-                      result_of a (apply_all (firstn n (executed acts)) c) <> Ok tt.
+            exists a, nth_error (executed acts c) n = Some a /\
+                      result_of a (apply_all (firstn n (executed acts c)) c) <> Ok tt.
 Proof.
   split; [apply spec_actions_core|]. intros n. rewrite spec_actions_issue_iff. split.
   - intros (n' & a & Hk & Hn & Hr). assert (n = n') by lia. subst. eauto.
@@ -605,10 +708,11 @@ Proof.
   rewrite H in H1. inversion H1; subst. rewrite H2. apply spec_run_measured.
 Qed.
 
-Lemma switch_skips_rest fam st log sid pre a post g more :
+Lemma switch_skips_rest fam st log sid body pre a post g more :
   sized fam -> uint_ok st ->
-  remaining fam st = (sid, SStatic (pre ++ a :: post)) :: more ->
-  Forall (fun x => sets_flow x = None) pre -> sets_flow a = Some g ->
+  remaining fam st = (sid, body) :: more ->
+  actions_of body (ms_core st) = Ok (pre ++ a :: post) ->
+  first_switch pre (ms_core st) = None -> sets_flow a (apply_all pre (ms_core st)) = Some g ->
   exists st' e, next_step fam st log = Ok (st', log ++ [e], true) /\
     remaining fam st' = flow_steps fam g /\
     e_actions e = pre ++ a :: post /\
@@ -616,11 +720,11 @@ Lemma switch_skips_rest fam st log sid pre a post g more :
     e_measured e = snd (fst (fst (spec_actions (pre ++ [a]) 0 (ms_core st)))) /\
     e_issues e = fst (fst (fst (spec_actions (pre ++ [a]) 0 (ms_core st)))) ++ snd (actor_part (ms_core st')).
 Proof.
-  intros Hsz Hu Hrem Hpre Ha.
+  intros Hsz Hu Hrem Hact Hpre Ha.
   destruct (spec_actions_skip pre a post g 0 (ms_core st) Hpre Ha) as [E1 E2].
-  destruct (exec_step (sid, SStatic (pre ++ a :: post)) (ms_core st)) as [[e c'] sw] eqn:Hex.
+  destruct (exec_step (sid, body) (ms_core st)) as [[e c'] sw] eqn:Hex.
   destruct (next_step_exec fam st log _ more e c' sw Hsz Hu Hrem Hex) as (st' & H & Hc & _ & Hr).
-  unfold exec_step in Hex. cbn [actions_of] in Hex. rewrite E1 in Hex. rewrite E1 in E2.
+  unfold exec_step in Hex. rewrite Hact in Hex. rewrite E1 in Hex. rewrite E1 in E2.
   destruct (spec_actions (pre ++ [a]) 0 (ms_core st)) as [[[iss m] c1] sw1].
   destruct (actor_part c1) as [code aiss] eqn:Eact. injection Hex as He Hc1 Hsw.
   subst e. rewrite <- Hc1 in Hc. rewrite <- Hsw in Hr. cbn [snd] in E2. rewrite E2 in Hr.
@@ -628,4 +732,34 @@ Proof.
                  e_actor := c_actor c1; e_code := code |}.
   cbn [fst snd e_actions e_measured e_issues]. rewrite Hc, Eact. cbn [snd].
   repeat split; auto.
+Qed.
+
+(** machine level: NextStep on a step whose action list contains a
+    function-based set-flow continues at the first step of the flow the
+    function returns FOR THE STATE LEFT BY THE PRECEDING ACTIONS *)
+Lemma set_flow_func_machine fam st log sid body pre id fn post g more :
+  sized fam -> uint_ok st ->
+  remaining fam st = (sid, body) :: more ->
+  actions_of body (ms_core st) = Ok (pre ++ ASetFlowFunc id fn :: post) ->
+  first_switch pre (ms_core st) = None ->
+  eval_ffun fn (apply_all pre (ms_core st)) = Ok g ->
+  exists st' e, next_step fam st log = Ok (st', log ++ [e], true) /\
+    remaining fam st' = flow_steps fam g /\
+    ms_core st' = apply_all pre (ms_core st).
+Proof.
+  intros Hsz Hu Hrem Hact Hpre Hg.
+  assert (Ha : sets_flow (ASetFlowFunc id fn) (apply_all pre (ms_core st)) = Some g)
+    by (cbn [sets_flow]; rewrite Hg; reflexivity).
+  destruct (switch_skips_rest fam st log sid body pre _ post g more Hsz Hu Hrem Hact Hpre Ha)
+    as (st' & e & H1 & H2 & _ & H4 & _).
+  exists st', e. split; [exact H1|]. split; [exact H2|]. rewrite H4.
+  rewrite spec_actions_core.
+  assert (Hex : forall l c, first_switch l c = None -> sets_flow (ASetFlowFunc id fn) (apply_all l c) = Some g ->
+            apply_all (executed (l ++ [ASetFlowFunc id fn]) c) c = apply_all l c).
+  { induction l as [|x l IH]; intros c Hn Hs.
+    - cbn [app executed]. cbn [apply_all fold_left] in Hs. rewrite Hs. unfold apply_all. cbn [fold_left].
+      unfold core_after. cbn [core_apply sets_flow] in *. destruct (eval_ffun fn c); try discriminate. reflexivity.
+    - apply first_switch_none_cons in Hn. destruct Hn as [Hn1 Hn2].
+      cbn [app executed]. rewrite Hn1. unfold apply_all in *. cbn [fold_left] in *. apply IH; assumption. }
+  apply Hex; assumption.
 Qed.
